@@ -1,10 +1,13 @@
 (* C02 - Decoder soundness: a payload is reported only for an intact canonical frame.
    For every buffer capacity and every history of push_byte / finalize / reset / from_buf
    (bytes < 256), whenever the i-th call reports a payload m, the bytes pushed since the last
-   finalize/reset/from_buf end with exactly [frame m] (Spec/Frame.v).  This file contains the
-   statement only. *)
+   finalize/reset/from_buf end with exactly [frame m] (Spec/Frame.v).
+   [C02_frontends] carries this to decode(), decode_streaming and the readers over slice /
+   iterator / io::Read (through C15): a payload they report occurs, canonically framed, in the
+   byte stream they were given.  This file contains the statements only. *)
 Require Export Sml.Base.Prelude Sml.Base.Crc Sml.Spec.Frame Sml.Model.Decode.
-Require Export Sml.Proofs.DecodeSound.
+Require Export Sml.Model.Frontends Sml.Model.Parser Sml.Model.Reader.
+Require Export Sml.Proofs.DecodeSound Sml.Proofs.FrontendsAgree Sml.Proofs.SoundFrontends.
 
 Theorem C02_sound : forall (cap : cap_t) (ops : list op) (i : nat) (m : list byte),
   Forall op_ok ops ->
@@ -12,6 +15,17 @@ Theorem C02_sound : forall (cap : cap_t) (ops : list op) (i : nat) (m : list byt
   exists pre, trailing (firstn (S i) ops) [] = pre ++ frame m.
 Proof. exact ops_sound_frame. Qed.
 Print Assumptions C02_sound.
+
+Theorem C02_frontends : forall (s m : list byte),
+  bytes_ok s ->
+  (In (RMsg m) (decode_fn s) -> exists pre suf, s = pre ++ frame m ++ suf) /\
+  (forall cap, In (RMsg m) (snd (di_all cap (length s + 2) (di_new s))) ->
+               exists pre suf, s = pre ++ frame m ++ suf) /\
+  (forall cap kind, kind <> KEh ->
+     In (RdOk m) (snd (rd_all cap (length s + 2) (rd_new kind (map SByte s)))) ->
+     exists pre suf, s = pre ++ frame m ++ suf).
+Proof. exact frontends_sound. Qed.
+Print Assumptions C02_frontends.
 
 (* the premise is satisfiable: a real frame is delivered, also across a reset *)
 Example C02_nonvacuous :
